@@ -111,108 +111,74 @@ class Index:
         until: typing.Optional[int] = None,
         events=FakeContainer(),
     ):
+        """
+        Yield the ids of the events indexed under each of the matches,
+        newest first for each match, with since <= created_at <= until.
+        Keys look like <match>\x00<4 bytes created_at>\x00<32 bytes id>
+        """
         cursor = txn.cursor()
-        # compile the matches to the expected format for the index,
-        # to make substring checks quicker
         compiled_matches = []
         for match in matches:
             try:
                 compiled_matches.append(self.to_key(match))
             except ValueError:
                 pass
-        if since is not None:
-            since = since.to_bytes(4, "big")
+        low = (since or 0).to_bytes(4, "big")
         if until is not None:
-            until = until.to_bytes(4, "big")
-            add_time = b"\x00%s\x00" % until
+            high = until.to_bytes(4, "big")
         else:
-            add_time = b""
+            high = b"\xff\xff\xff\xff"
 
         prev = cursor.prev
         get_key = cursor.key
 
-        if compiled_matches:
-            matchiter = iter(compiled_matches)
-
-            def next_match():
-                try:
-                    match = next(matchiter)
-                except StopIteration:
-                    return None, None
-                skipped = cursor.set_range(match + add_time + b"\xff")
-                if skipped:
-                    prev()
-                return match, skipped
-
-            if len(compiled_matches) > 1:
-                stop = compiled_matches[-1]
+        def scan(prefix, seen):
+            # start after the newest possible key for this match
+            # (set_range finds the first key >= the argument)
+            if cursor.set_range(prefix + high + b"\xff" * 34):
+                found = prev()
             else:
-                stop = self.prefix
-            if since:
-                stop += b"\x00" + since
-            match, skipped = next_match()
-        else:
-            match = None
-            if until:
-                start = self.prefix + until + b"\x00"
-            else:
-                start = self.prefix + b"\xff"
-            cursor.set_range(start)
-            stop = self.prefix
-            if since:
-                stop += since + b"\xff"
-            # print(f'{start} -> {stop}')
-
-        def iterator(match):
-            key = bytes(get_key())
-
-            if match is not None:
-                matchlen = len(match)
-                while match:
-                    # breakpoint()
+                found = cursor.last()
+            keylen = len(prefix) + 37
+            while found:
+                key = bytes(get_key())
+                if not key.startswith(prefix):
+                    break
+                # a longer value that contains \x00 can sort in between
+                if len(key) == keylen:
                     ts = key[-37:-33]
-                    # print(key, match, ts, since, until)
-
-                    if (
-                        key[:matchlen] != match
-                        or (since and ts < since)
-                        or (until and ts > until)
-                    ):
-                        match, skipped = next_match()
-
-                        if match is None:
-                            break
-                        else:
-                            matchlen = len(match)
-
-                        if skipped:
-                            key = bytes(get_key())
-                            continue
-                        else:
-                            break
-                    elif key < stop:
+                    if ts < low:
                         break
+                    event_id = key[-32:]
+                    if ts <= high and event_id not in seen and event_id in events:
+                        seen.add(event_id)
+                        yield event_id
+                found = prev()
 
+        def iterator():
+            seen = set()
+            if compiled_matches:
+                for match in compiled_matches:
+                    yield from scan(match + b"\x00", seen)
+            elif matches:
+                return
+            else:
+                # date range scan over the whole index
+                if cursor.set_range(self.prefix + high + b"\xff" * 39):
+                    found = prev()
+                else:
+                    found = cursor.last()
+                while found:
+                    key = bytes(get_key())
+                    if key[0:1] != self.prefix or key[1:5] < low:
+                        break
                     event_id = key[-32:]
                     if event_id in events:
                         yield event_id
-                    if not prev():
-                        break
-                    key = bytes(get_key())
-
-            else:
-                while key > stop:
-                    # print(key, int.from_bytes(key[-37:-33]))
-                    # breakpoint()
-                    if key[0:1] == self.prefix:
-                        yield key[-32:]
-
-                    if not prev():
-                        break
-                    key = bytes(get_key())
+                    found = prev()
 
         try:
-            yield iterator(match)
+            yield iterator()
         finally:
             cursor.close()
 
